@@ -334,3 +334,43 @@ def replay_payload(case):
     if "table" in c:
         c["table"] = {k: [float(x) for x in v] for k, v in c["table"].items()}
     return c
+
+
+# ------------------------------------------------------------------------------ FlowProperties correspondence
+def emit_fp_case(k, tb, p_i, queries, impl, simple=False):
+    """[d_mi; maxdiff m-scaled column; maxdiff alpha(queries); maxdiff m_scaled_func(pressures); errflag]"""
+    init = "fp_init_simple" if simple else "fp_init"
+    if "error" in impl:
+        return (f"Definition fpcase_{k} := match {init} NumF {table_term(tb)} {fl(p_i)} with None => [0; 0; 0; 0; 1] | Some _ => [0; 0; 0; 0; 0] end.\n"
+                f"Eval vm_compute in fpcase_{k}.")
+    pq = impl["pq"]
+    return (f"Definition fpcase_{k} := match {init} NumF {table_term(tb)} {fl(p_i)} with None => [0; 0; 0; 0; 1] | Some fp => "
+            f"[fabsdiff (fp_m_i fp) {fl(impl['m_i'])}; maxdiff (fp_mscaled fp) {flist(impl['ms'])}; "
+            f"maxdiff (map (alpha_func NumF fp) {flist(queries)}) {flist(impl['alpha_q'])}; "
+            f"maxdiff (map (fun q => match m_scaled_func NumF fp q with Some v => v | None => nan end) {flist(pq)}) {flist(impl['ms_q'])}; 0] end.\n"
+            f"Eval vm_compute in fpcase_{k}.")
+
+
+def run_fp_cases(ctx, items, tag, shard=6, timeout=600):
+    """items: list of (tb, p_i, queries, impl, simple)."""
+    files = []
+    for s in range(0, len(items), shard):
+        body = [HEADER] + [emit_fp_case(s + j, *it) for j, it in enumerate(items[s:s + shard])]
+        path = os.path.join(ctx.bdir, f"FP_{tag}_{s // shard}.v")
+        open(path, "w").write("\n".join(body) + "\n")
+        files.append((path, list(range(s, min(s + shard, len(items))))))
+
+    def comp(item):
+        path, keep = item
+        rc, o, dt = core.sh(["coqc", "-q", "-Q", core.LIB, "BBLib", path], timeout)
+        return path, keep, rc, o
+    results = [None] * len(items)
+    with cf.ThreadPoolExecutor(max_workers=14) as ex:
+        for path, keep, rc, o in ex.map(comp, files):
+            vals = parse_results(o) if rc == 0 else []
+            if rc != 0 or len(vals) != len(keep):
+                ctx.broken.append(f"correspondence file {os.path.basename(path)} failed: {o[-300:]}")
+                continue
+            for k, v in zip(keep, vals):
+                results[k] = v
+    return results
